@@ -240,7 +240,9 @@ def run_fuzz(prop, fz, secs, workdir):
     cwd = os.path.join(VERIF, fz["mod"])
     cmd = ["go", "test", "-tags", "verif", "-vet=off", "-run", "^$", "-fuzz", "^%s$" % fz["target"], "-fuzztime", "%ds" % secs,
            "-parallel", str(fz.get("workers", NCPU)), "./" + fz["pkg"]]
-    rc, out, wall = run_proc(cmd, goenv(), cwd, secs + 600, None)
+    env = goenv()
+    env["VERIF_KNOWN"] = ",".join(k["id"] for k in known_findings(prop))
+    rc, out, wall = run_proc(cmd, env, cwd, secs + 600, None)
     info = {"target": fz["target"], "seconds": secs}
     m = re.findall(r"execs: (\d+) .*?new interesting: (\d+) \(total: (\d+)\)", out)
     if m:
